@@ -1,4 +1,5 @@
 """C10 — overload resolution: unique most specific signature, order-independent."""
+import math
 import os, sys, json, itertools
 from fractions import Fraction
 import core
@@ -297,6 +298,25 @@ def check(ctx):
                         ctx.violation("dispatch-narrow:%s%s@%d" % (name, h.sig, i), "%s%s arg %d = %r" % (name, h.sig, i, bad),
                                       "not accepted where %s is declared" % tn, "accepted", "FunctionSignature.matches")
                     ctx.count("narrow:%s%s@%d:%s" % (name, h.sig, i, type(bad).__name__), bucket="narrowing")
+
+    # ---- no narrowing, as text: a float that is NEARLY whole (the result of a computation, displayed as a whole number at six
+    # digits) is still not an integer where an integer is required.  The values are computed here with Python's own floats.
+    near_whole = [("sqrt(2)^2", math.sqrt(2) ** 2), ("49*float(1/49)", 49 * (1 / 49)), ("tan(pi/4)", math.tan(math.pi / 4)), ("0.1*30", 0.1 * 30),
+                  ("1.1*10", 1.1 * 10), ("3*1.1", 3 * 1.1), ("2.5", 2.5), ("5/2", None), ("1e15+0.3", 1e15 + 0.3), ("9007199254740991/2.0", 9007199254740991 / 2.0)]
+    contexts = ["C(%s, 1)", "C(5, %s)", "(%s)!", "1..(%s)", "(%s)..5", "C(%s, %s)"]
+    for ctx_t in contexts:
+        probe = R.value(ctx_t.replace("%s", "2.5"))
+        if probe[0] == "ok":
+            continue                     # this position does not require an integer on this tree (the registry checks above judge that)
+        for e, pv in near_whole:
+            if pv is not None and pv == int(pv):
+                continue
+            text = ctx_t.replace("%s", e)
+            k_, v_ = R.value(text)
+            ctx.count("narrow-text:" + text, bucket="narrowing-text")
+            if k_ == "ok":
+                ctx.violation("dispatch-narrow-text:" + text, text, "rejected: %s is not an integer (%s)" % (e, repr(pv) if pv is not None else "a fraction"),
+                              "accepted: %s" % (v_,), "execute(%r)" % text)
 
     # ---- thorough: permute the real registry and re-evaluate a corpus through execute()
     corpus = ["6/4", "2^10", "3! * 4!", "C(5,2) / 3", "5 m + 20 cm", "2 m * 3 s", "6 m / 2 m", "abs(-3 m)", "[1,2] + 3", "3 + [1,2]",
